@@ -366,7 +366,71 @@ def gen_dunder():
             'From Coq Require Import String List. Import ListNotations. Open Scope string_scope.\n'
             '(* (method, algebra operator it calls, operands swapped?, arity) *)\n'
             f'Definition mv_methods : list (string * string * bool * nat) := {fmt(rows_mv)}.\n'
-            f'Definition tape_methods : list (string * string * bool * nat) := {fmt(rows_tp)}.\n')
+            f'Definition tape_methods : list (string * string * bool * nat) := {fmt(rows_tp)}.\n'
+            + gen_pinned(mv, tp))
+
+
+# the hand-modelled members of the two operator surfaces and of the registry glue (Model/Tape.v): their source
+# text (docstrings and comments dropped, re-printed by ast.unparse) is emitted as Coq strings, so that
+# Theory/Tape.v can state `<table> = <the text the model was written against>`; any edit of these
+# functions breaks that lemma (fail-closed) instead of silently leaving the model behind the code.
+PIN_MV = ['keys', 'values', 'fromkeysvalues', 'grade', '__getattr__', '__pow__', 'norm', 'normalized', 'dual', 'undual']
+PIN_TAPE = ['__new__', 'keys', '__getattr__', 'grade', 'binary_operator', 'unary_operator', '__rsub__', '__pow__',
+            'dual', 'undual', 'norm', 'normalized']
+PIN_GLUE = [('operator_dict.py', 'OperatorDict', '_call_binary'), ('operator_dict.py', 'UnaryOperatorDict', '__call__'),
+            ('operator_dict.py', 'Registry', '__getitem__'), ('operator_dict.py', 'Registry', '__call__'),
+            ('operator_dict.py', 'OperatorDict', '_store'), ('codegen.py', None, 'do_compile')]
+
+
+def coq_string(s):
+    if any(ord(c) > 126 or (ord(c) < 32 and c != '\n') for c in s):
+        raise Unsupported('non-ASCII character in a pinned source text')
+    return '"' + s.replace('"', '""') + '"'
+
+
+def fn_source(fn):
+    """source of a FunctionDef without its docstring (ast.unparse drops comments and normalises layout)"""
+    body = list(fn.body)
+    if body and isinstance(body[0], ast.Expr) and isinstance(body[0].value, ast.Constant) and isinstance(body[0].value.value, str):
+        body = body[1:] or [ast.Pass()]
+    clone = ast.FunctionDef(name=fn.name, args=fn.args, body=body, decorator_list=fn.decorator_list, returns=None,
+                            type_comment=None, lineno=0, col_offset=0)
+    return ast.unparse(ast.fix_missing_locations(clone))
+
+
+def class_funcs(classnode):
+    out = {}
+    for st in classnode.body:
+        if isinstance(st, ast.FunctionDef):
+            out[st.name] = st          # a later definition of the same name wins, as in the class body
+    return out
+
+
+def gen_pinned(mv, tp):
+    def table(name, rows):
+        return (f'Definition {name} : list (string * string) := [\n  '
+                + ';\n  '.join(f'({coq_string(n)}, {coq_string(src)})' for n, src in rows) + '\n].\n')
+    fm, ft = class_funcs(mv), class_funcs(tp)
+    rows_mv = [(n, fn_source(fm[n])) for n in PIN_MV]
+    rows_tp = [(n, fn_source(ft[n])) for n in PIN_TAPE]
+    # every FunctionDef / partialmethod name of TapeRecorder: what exists on the recorder at all
+    tape_names = []
+    for st in tp.body:
+        if isinstance(st, ast.FunctionDef):
+            tape_names.append(st.name)
+        elif isinstance(st, ast.Assign):
+            tape_names += [t.id for t in st.targets if isinstance(t, ast.Name)]
+    rows_gl = []
+    for fn, cls, name in PIN_GLUE:
+        mod = parse(fn)
+        if cls is None:
+            node = funcs_of(mod)[name]
+        else:
+            node = class_funcs([n for n in mod.body if isinstance(n, ast.ClassDef) and n.name == cls][0])[name]
+        rows_gl.append(((cls + '.' if cls else '') + name, fn_source(node)))
+    return ('(* source text of the hand-modelled members (see Model/Tape.v, Theory/Tape.v) *)\n'
+            + table('mv_defs', rows_mv) + table('tape_defs', rows_tp) + table('glue_defs', rows_gl)
+            + 'Definition tape_names : list string := [' + '; '.join(coq_string(n) for n in tape_names) + '].\n')
 
 
 # ----------------------------------------------------------------------------- driver
